@@ -49,6 +49,12 @@ def window_sessions(rnd, n, thorough):
             # one negotiated by the Forward Open that finally succeeded
             sc["target"]["policy"] = "AllRefused"
             calls = [{"api": "open"}, {"api": "_env", "intent": {"policy": pol}}] + calls
+        if i % 7 == 5:
+            # the same driver object is used for two sessions: the large connection first, then (the target no longer admits
+            # large connections) the small one; nothing sized for the first session may leak into the second
+            sc["target"]["policy"] = "LargeOK"
+            first = [S.read_call(mids), S.write_call([dict(r, value=[1] * r["count"]) if r.get("count") else dict(r, value=1) for r in mids[:6:3]])]
+            calls = [{"api": "open"}] + first + [{"api": "close"}, {"api": "_env", "intent": {"policy": "LargeRefused"}}] + calls
         sc["calls"] = calls
         sc["family"] = "logix-window-%d" % S0
         sc["target"]["caps"] = [rnd.choice([1, 2, 3, 7, 99, 100, 333, S0 - 8, S0 - 9, S0]) for _ in range(rnd.choice([0, 4, 30]))]
@@ -60,6 +66,8 @@ def families(ctx, rnd, thorough, which):
     scs = []
     if "rw" in which:
         scs += [logix_rw.session(rnd, i) for i in range(600 if thorough else 56)]
+    if "rw" in which or "redownload" in which:
+        scs += logix_rw.redownload_sessions(rnd, 60 if thorough else 8)
     if "bits" in which:
         scs += logix_rw.bits_sessions(rnd, 120 if thorough else 14)
     if "long" in which:
